@@ -59,6 +59,9 @@ def flow_trace(ctx, suite, nq, nt, profile="release", chunk=4000, extra=(), labe
     ctx.states += res["distinct"]
     ctx.transitions += res["consumed"]
     ctx.traces += res["consumed"]
+    for c, k in res["cov"].items():
+        if k:
+            ctx.classes[c] = ctx.classes.get(c, 0) + k
     with open(out) as f:
         for i, line in enumerate(f):
             if i < 2:
